@@ -80,6 +80,78 @@ def abstract_arith(exprs):
     return [go(e) for e in exprs]
 
 
+def run_z3_tracked(ob, timeout_ms=4000):
+    """the same formulas asserted as tracked literals (assert_and_track): z3 then skips the equation-solving preprocessing
+    that substitutes purified names back into Concat / If terms; observed to turn timeouts into immediate `unsat`"""
+    t = time.time()
+    try:
+        s = z3.Solver()
+        s.set("timeout", timeout_ms)
+        s.set(unsat_core=True)
+        for i, h in enumerate(ob.hyps):
+            s.assert_and_track(h, f"h!{i}")
+        s.assert_and_track(z3.Not(ob.goal), "goal!")
+        r = s.check()
+    except z3.Z3Exception:
+        return "unknown", time.time() - t
+    return ("unsat" if r == z3.unsat else "unknown"), time.time() - t
+
+
+def _symbols(e, cache):
+    k = e.get_id()
+    if k in cache:
+        return cache[k]
+    out = set()
+    stack = [e]
+    seen = set()
+    while stack:
+        x = stack.pop()
+        i = x.get_id()
+        if i in seen:
+            continue
+        seen.add(i)
+        if z3.is_quantifier(x):
+            stack.append(x.body())
+        elif z3.is_app(x):
+            d = x.decl()
+            if d.kind() == z3.Z3_OP_UNINTERPRETED:
+                out.add(d.name())
+            stack.extend(x.children())
+    cache[k] = out
+    return out
+
+
+def run_z3_relevant(ob, timeout_ms=4000):
+    """proving from FEWER hypotheses is sound.  Keep the hypotheses that share an uninterpreted symbol with the goal
+    (then with those hypotheses, one more round): the facts about other program points only make the solver diverge"""
+    t = time.time()
+    cache = {}
+    try:
+        gs = _symbols(ob.goal, cache)
+        hs = [(h, _symbols(h, cache)) for h in ob.hyps]
+        for rounds in (1, 2):
+            syms = set(gs)
+            sel = set()
+            for _ in range(rounds):
+                for i, (h, ss) in enumerate(hs):
+                    if i not in sel and ss & syms:
+                        sel.add(i)
+                for i in sel:
+                    syms |= hs[i][1]
+            if len(sel) == len(hs):
+                break
+            s = z3.Solver()
+            s.set("timeout", timeout_ms)
+            for i in sorted(sel):
+                s.add(hs[i][0])
+            s.add(z3.Not(ob.goal))
+            if s.check() == z3.unsat:
+                return "unsat", time.time() - t
+    except z3.Z3Exception:
+        pass
+    return "unknown", time.time() - t
+
+
 def run_z3_abstract(ob, timeout_ms=5000):
     t = time.time()
     try:
@@ -165,6 +237,16 @@ def discharge(ob, both=False, use_cvc5=True):
             ob.verdict, ob.backend = "discharged", "cvc5"
             return ob
     if r == "unknown":
+        rt, dtt = run_z3_tracked(ob)
+        ob.time += dtt
+        if rt == "unsat":
+            ob.verdict, ob.backend = "discharged", "z3-tracked"
+            return ob
+        rr_, dtr = run_z3_relevant(ob)
+        ob.time += dtr
+        if rr_ == "unsat":
+            ob.verdict, ob.backend = "discharged", "z3-relevant-hypotheses"
+            return ob
         ra, dta = run_z3_abstract(ob, 3000)
         ob.time += dta
         if ra == "unsat":
